@@ -166,6 +166,16 @@ where
 		sl.state = SlateState::Invoice3;
 		sl.amount = 0;
 	} else if sl.state == SlateState::Standard2 {
+		// The recipient of a standard send only ever contributes outputs. A reply
+		// carrying inputs would have us sign a transaction that spends coins this
+		// wallet never reserved (and need not pay the recipient at all).
+		if let Some(tx) = sl.tx.as_ref() {
+			if tx.inputs().len() != 0 {
+				return Err(Error::GenericError(
+					"Reply slate must not contain inputs".to_owned(),
+				));
+			}
+		}
 		let keychain = w.keychain(keychain_mask)?;
 		let parent_key_id = w.parent_key_id();
 
